@@ -78,6 +78,65 @@ def cut(mol, bond):
     return out
 
 
+def cut2(mol, bond_a, bond_b):
+    """Remove two bonds; return the fragment that lost both (two attachment points, possibly on one atom) as
+    {"mol", "bounds": [(index in the fragment, source index of the atom on the other side), ...]} or None."""
+    ends = [(bond_a.GetBeginAtomIdx(), bond_a.GetEndAtomIdx()), (bond_b.GetBeginAtomIdx(), bond_b.GetEndAtomIdx())]
+    rw = Chem.RWMol(mol)
+    for a, b in ends:
+        rw.RemoveBond(a, b)
+        for idx in (a, b):
+            at = rw.GetAtomWithIdx(idx)
+            if at.GetNoImplicit() or at.GetNumExplicitHs() > 0:
+                at.SetNumExplicitHs(at.GetNumExplicitHs() + 1)
+    try:
+        Chem.SanitizeMol(rw)
+    except Exception:
+        return None
+    frags = Chem.GetMolFrags(rw, asMols=False)
+    if len(frags) != 3:
+        return None
+    for atoms in frags:
+        atoms = sorted(atoms)
+        here = []
+        for a, b in ends:
+            if a in atoms and b not in atoms:
+                here.append((a, b))
+            elif b in atoms and a not in atoms:
+                here.append((b, a))
+        if len(here) != 2:
+            continue
+        sub = Chem.RWMol(rw)
+        for idx in sorted(set(range(rw.GetNumAtoms())) - set(atoms), reverse=True):
+            sub.RemoveAtom(idx)
+        sub = sub.GetMol()
+        try:
+            Chem.SanitizeMol(sub)
+        except Exception:
+            return None
+        return {"mol": sub, "bounds": [(atoms.index(h), o) for h, o in here]}
+    return None
+
+
+def run_merge_multi(src, frag, bounds, use_smiles):
+    """one compound with several boundaries, added in the given order"""
+    cset = CompoundSet()
+    if use_smiles:
+        smi = Chem.MolToSmiles(frag)
+        order = list(map(int, frag.GetProp("_smilesAtomOutputOrder")[1:-1].rstrip(",").split(",")))
+        c = cset.add_compound(smi, src_mol=Chem.MolToSmiles(src))
+        sorder = list(map(int, src.GetProp("_smilesAtomOutputOrder")[1:-1].rstrip(",").split(",")))
+        for idx, nidx in bounds:
+            c.add_boundary(order.index(idx), symbol=frag.GetAtomWithIdx(idx).GetSymbol(), neighbor_index=sorder.index(nidx),
+                           neighbor_symbol=src.GetAtomWithIdx(nidx).GetSymbol())
+    else:
+        c = cset.add_compound(Chem.Mol(frag), src_mol=Chem.Mol(src))
+        for idx, nidx in bounds:
+            c.add_boundary(idx, symbol=frag.GetAtomWithIdx(idx).GetSymbol(), neighbor_index=nidx,
+                           neighbor_symbol=src.GetAtomWithIdx(nidx).GetSymbol())
+    return merge(cset)
+
+
 RULE_FGS = ["ether", "thioether", "ester", "thioester", "amid", "keton", "aldehyde", "acid", "enol", "alcohol", "phenol"]
 PATTERNS = ["P=O", "N#N"]
 SRC_PATTERNS = ["C=C"]
@@ -242,9 +301,50 @@ def main():
                 except Exception as ex:
                     e1["raised"] = "%s: %s" % (type(ex).__name__, str(ex)[:100])
                 add(e1)
+    # fragments with two attachment points (two bonds cut), completed on their own, boundaries in both orders
+    nmulti = 0
+    max_multi = 250 if tier == "quick" else 5000
+    for smi in mols:
+        if nmulti >= max_multi:
+            break
+        src = oracle.parse(smi)
+        if src is None or src.GetNumAtoms() < 4 or src.GetNumAtoms() > 50 or "." in smi:
+            continue
+        Chem.MolToSmiles(src)
+        bonds = [b for b in src.GetBonds() if b.GetBondType() == Chem.BondType.SINGLE and not b.IsInRing()
+                 and b.GetBeginAtom().GetSymbol() != "H" and b.GetEndAtom().GetSymbol() != "H"]
+        if len(bonds) < 2:
+            continue
+        for _ in range(2 if tier == "quick" else 5):
+            ba, bb = rng.sample(bonds, 2)
+            mid = cut2(src, ba, bb)
+            if mid is None:
+                continue
+            nmulti += 1
+            Chem.MolToSmiles(mid["mol"])
+            for rev in (False, True):
+                bounds = list(reversed(mid["bounds"])) if rev else list(mid["bounds"])
+                use_smiles = (nmulti + rev) % 2 == 0
+                descr = [describe(src, {"mol": mid["mol"], "index": i_, "nidx": n_}, use_smiles, rng) for i_, n_ in bounds]
+                e = {"ev": "merge1m", "src": smi, "use_smiles": use_smiles, "b": descr,
+                     "frag_smiles": [Chem.MolToSmiles(mid["mol"])], "frag_heavy": [counts(mid["mol"])], "raised": "",
+                     "rules": [], "open": 0, "parses": False, "heavy": {}, "ncomp": 0, "reversed": rev}
+                try:
+                    res = run_merge_multi(src, mid["mol"], bounds, use_smiles)
+                    e["rules"] = [r.name for r in res.rules]
+                    e["open"] = len(res.boundaries)
+                    e["out"] = res.smiles
+                    m = oracle.parse(res.smiles)
+                    if m is not None:
+                        e["parses"] = True
+                        e["heavy"] = counts(m)
+                        e["ncomp"] = len(Chem.GetMolFrags(m))
+                except Exception as ex:
+                    e["raised"] = "%s: %s" % (type(ex).__name__, str(ex)[:100])
+                add(e)
     common.write_ndjson(out_file, ev)
     m2 = [e for e in ev if e["ev"] == "merge2"]
-    print(json.dumps({"events": len(ev), "pairs": npairs, "reconstructed": sum(1 for e in m2 if e["same"]),
+    print(json.dumps({"events": len(ev), "pairs": npairs, "two_boundary_fragments": nmulti, "reconstructed": sum(1 for e in m2 if e["same"]),
                       "raised": sum(1 for e in ev if e.get("raised")),
                       "rules_seen": sorted({r for e in ev if e["ev"] != "rules" for r in e["rules"]})}))
 
